@@ -4,7 +4,7 @@
 
 use crate::world::{Case, ROOT_TOKEN};
 use std::fs;
-use std::os::unix::process::{CommandExt, ExitStatusExt};
+use std::os::unix::process::ExitStatusExt;
 use std::path::{Path, PathBuf};
 use std::process::{Command, Stdio};
 use std::sync::atomic::{AtomicI32, AtomicU64, Ordering};
@@ -163,8 +163,15 @@ impl Runner {
                 sarif_rel = Some(argv[i + 1].clone());
             }
         }
-        let mut cmd = Command::new(&self.bin);
-        cmd.args(&argv)
+        // posix_spawn of a tiny launcher (limits + address-space policy, then exec):
+        // no fork of the harness process per run.
+        let launcher = self.shim.with_file_name("simlaunch");
+        let mut cmd = Command::new(&launcher);
+        cmd.arg(if case.plan.aslr { "1" } else { "0" })
+            .arg("60")
+            .arg(format!("{}", 2u64 << 30))
+            .arg(&self.bin)
+            .args(&argv)
             .current_dir(&self.root)
             .env_clear()
             .env("LD_PRELOAD", &self.shim)
@@ -172,22 +179,6 @@ impl Runner {
             .stdin(Stdio::null())
             .stdout(Stdio::from(out_f))
             .stderr(Stdio::from(err_f));
-        let aslr = case.plan.aslr;
-        unsafe {
-            cmd.pre_exec(move || {
-                // Fixed address-space layout (unless the plan says otherwise); CPU and memory limits.
-                if !aslr {
-                    libc::personality(0x0040000 /* ADDR_NO_RANDOMIZE */);
-                }
-                let cpu = libc::rlimit { rlim_cur: 60, rlim_max: 65 };
-                libc::setrlimit(libc::RLIMIT_CPU, &cpu);
-                let mem = libc::rlimit { rlim_cur: 2 << 30, rlim_max: 2 << 30 };
-                libc::setrlimit(libc::RLIMIT_AS, &mem);
-                let core = libc::rlimit { rlim_cur: 0, rlim_max: 0 };
-                libc::setrlimit(libc::RLIMIT_CORE, &core);
-                Ok(())
-            });
-        }
         let mut child = cmd.spawn().map_err(|e| format!("spawn: {e}"))?;
         self.slot.started.store(now_secs(), Ordering::SeqCst);
         self.slot.pid.store(child.id() as i32, Ordering::SeqCst);
